@@ -44,10 +44,27 @@ session_id, client_to_server)`` builds one keyed ``refssh.Direction`` (stateful:
 Sender/Receiver, never share); ``keyed_pair(keys, strict)`` returns a paramiko client/server
 pair that already went through one key switch.
 
+Bench dimensions added for direction asymmetry / socket behaviour (all generated, see
+``strategies()``):
+
+* ``keys["c2s"]`` and ``keys["s2c"]`` are independent suites (RFC 4253 7.1 negotiates every
+  algorithm per direction); a paramiko peer that only *receives* in a session still activates
+  its outbound direction at every key exchange (``run_session``), so that it is keyed exactly
+  the way ``_activate_outbound`` + ``_activate_inbound`` key a real transport.
+  ``suite_style`` / ``asymmetry_classes`` name what differs between the two directions.
+* ``ScriptSock(frags, timeouts=...)`` raises ``socket.timeout`` / ``socket.error(EAGAIN)``
+  between fragments (what a socket with the 0.1 s timeout paramiko always sets does on a slow
+  link); ``PPeer(..., rekey_packets=, rekey_bytes=)`` lowers the re-key thresholds through the
+  public ``packetizer_class`` kwarg so that ``need_rekey()`` becomes true through the production
+  counters; ``PPeer.recv`` reacts to ``NeedRekeyException`` the way ``Transport.run`` does (go
+  round the loop again).
+
 Only hypothesis supplies randomness (strategies at the bottom); paramiko's own ``os.urandom``
 padding is left alone because no oracle depends on it.
 """
+import errno
 import hashlib
+import socket
 import traceback
 
 from vlib import refssh as R
@@ -75,6 +92,7 @@ MACS = (
 )
 COMPRESSIONS = ("none", "zlib", "zlib@openssh.com")
 KEX_HASHES = ("sha1", "sha256", "sha384", "sha512")
+STYLES = ("classic", "etm", "aead")
 MSG_NEWKEYS = 21
 MSG_EXT_INFO = 7
 
@@ -140,6 +158,41 @@ def framing_class(cipher, mac):
     return "%s/%s" % (kind, m)
 
 
+def suite_style(cipher, mac):
+    """classic (encrypt-and-MAC) | etm | aead: which authentication path of packet.py a
+    direction uses."""
+    if R.CIPHERS[cipher][0] == "gcm":
+        return "aead"
+    return "etm" if mac.endswith("-etm@openssh.com") else "classic"
+
+
+def wire_mac_len(cipher, mac):
+    return 16 if R.CIPHERS[cipher][0] == "gcm" else R.MACS[mac][2]
+
+
+def asymmetry_classes(keys):
+    """Evidence classes naming how the two directions of one negotiation differ."""
+    (c1, m1, z1), (c2, m2, z2) = keys["c2s"], keys["s2c"]
+    out = []
+    if (c1, m1) != (c2, m2):
+        out.append("asymmetric-suites")
+    s1, s2 = suite_style(c1, m1), suite_style(c2, m2)
+    if s1 != s2:
+        out.append("asymmetric-style")
+        out.append("asymmetric-style:%s/%s" % (s1, s2))
+    if wire_mac_len(c1, m1) != wire_mac_len(c2, m2):
+        out.append("asymmetric-mac-size")
+    # the MAC *table* sizes differ (also visible when one direction is GCM and the negotiated
+    # MAC name of that direction is unused)
+    if R.MACS[m1][2] != R.MACS[m2][2]:
+        out.append("asymmetric-mac-table-size")
+    if R.CIPHERS[c1][2] != R.CIPHERS[c2][2]:
+        out.append("asymmetric-block-size")
+    if z1 != z2:
+        out.append("asymmetric-compression")
+    return out
+
+
 def ref_direction(cipher, mac, hashname, K, H, session_id, client_to_server):
     """A freshly keyed refssh.Direction (RFC 4253 7.2 letters A/C/E for client->server,
     B/D/F for server->client).  Stateful (cipher contexts, GCM counter): one per user."""
@@ -197,9 +250,17 @@ class ScriptSock:
     end-of-stream (b"" -> Packetizer raises EOFError): the normal end of a scripted stream.
     After ``max_short`` short reads the remaining requests are served in full (bounds the
     quadratic cost of 1-byte reads on 70 kB packets); ``short_reads`` counts reads that
-    returned less than requested although more was buffered."""
+    returned less than requested although more was buffered.
 
-    def __init__(self, frags=(), max_short=3000):
+    ``timeouts`` = cyclic list of non-zero ints: |t| recv calls are served, then the next call
+    raises ``socket.timeout`` (t > 0) or ``socket.error(errno.EAGAIN)`` (t < 0) instead of
+    returning data - the two things a socket with a timeout does when the next TCP segment is
+    late.  Only raised while bytes are buffered (an empty buffer stays end-of-stream) and at
+    most ``max_timeouts`` times.  ``timeout_log`` holds, for every raised timeout, the number
+    of bytes consumed since the bench last called ``mark()`` (start of the current message);
+    ``consumed`` counts all bytes handed out."""
+
+    def __init__(self, frags=(), max_short=3000, timeouts=(), max_timeouts=4000):
         self.sent = []
         self.buf = bytearray()
         self.frags = [int(f) for f in frags]
@@ -208,6 +269,16 @@ class ScriptSock:
         self.max_short = max_short
         self.closed = False
         self.recv_calls = 0
+        self.timeouts = [int(t) for t in timeouts]
+        if any(t == 0 for t in self.timeouts):
+            raise HarnessBug("timeout script entries must be non-zero")
+        self.ti = 0
+        self.served = 0  # recv calls served since the last raised timeout
+        self.timeouts_raised = 0
+        self.max_timeouts = max_timeouts
+        self.consumed = 0
+        self.mark_at = 0
+        self.timeout_log = []
 
     # -- paramiko-facing surface
     def settimeout(self, t):
@@ -229,6 +300,17 @@ class ScriptSock:
         self.recv_calls += 1
         if not self.buf or n <= 0:
             return b""
+        if self.timeouts and self.timeouts_raised < self.max_timeouts:
+            t = self.timeouts[self.ti % len(self.timeouts)]
+            if self.served >= abs(t):
+                self.ti += 1
+                self.served = 0
+                self.timeouts_raised += 1
+                self.timeout_log.append(self.consumed - self.mark_at)
+                if t > 0:
+                    raise socket.timeout("timed out")
+                raise socket.error(errno.EAGAIN, "Resource temporarily unavailable")
+            self.served += 1
         k = min(n, len(self.buf))
         if self.frags and self.short_reads < self.max_short:
             f = self.frags[self.fi % len(self.frags)]
@@ -238,7 +320,15 @@ class ScriptSock:
                 self.short_reads += 1
         out = bytes(self.buf[:k])
         del self.buf[:k]
+        self.consumed += k
         return out
+
+    def mark(self):
+        """Start of a message as far as the bench is concerned; returns the timeout offsets
+        logged since the previous mark."""
+        log, self.timeout_log = self.timeout_log, []
+        self.mark_at = self.consumed
+        return log
 
     # -- bench-facing surface
     def feed(self, data):
@@ -267,18 +357,42 @@ def _role_names(role, keys):
     return keys["s2c"], keys["c2s"]
 
 
+_LOW_REKEY_CLASSES = {}
+
+
+def low_rekey_packetizer(rekey_packets=None, rekey_bytes=None):
+    """A Packetizer subclass (for Transport's public ``packetizer_class`` kwarg) whose re-key
+    thresholds are lowered; nothing else changes, so ``need_rekey()`` is reached through the
+    production counters in send_message / read_message."""
+    from paramiko.packet import Packetizer
+
+    key = (Packetizer, rekey_packets, rekey_bytes)
+    cls = _LOW_REKEY_CLASSES.get(key)
+    if cls is None:
+        attrs = {}
+        if rekey_packets is not None:
+            attrs["REKEY_PACKETS"] = int(rekey_packets)
+        if rekey_bytes is not None:
+            attrs["REKEY_BYTES"] = int(rekey_bytes)
+        cls = _LOW_REKEY_CLASSES[key] = type("LowRekeyPacketizer", (Packetizer,), attrs)
+    return cls
+
+
 class PPeer:
     kind = "paramiko"
 
-    def __init__(self, role, strict=False, frags=(), ext_info=False, transport_class=None):
+    def __init__(self, role, strict=False, frags=(), ext_info=False, transport_class=None, timeouts=(), rekey_packets=None, rekey_bytes=None):
         import paramiko
 
         if role not in ("client", "server"):
             raise HarnessBug(role)
         self.role = role
-        self.sock = ScriptSock(frags)
+        self.sock = ScriptSock(frags, timeouts=timeouts)
         cls = transport_class or paramiko.Transport
-        self.t = cls(self.sock)
+        if rekey_packets is not None or rekey_bytes is not None:
+            self.t = cls(self.sock, packetizer_class=low_rekey_packetizer(rekey_packets, rekey_bytes))
+        else:
+            self.t = cls(self.sock)
         self.t.server_mode = role == "server"
         self.t.agreed_on_strict_kex = bool(strict)
         # normally set while parsing the peer's KEXINIT; _activate_outbound reads it
@@ -286,6 +400,18 @@ class PPeer:
         self.t._remote_strict_kex = bool(strict)
         self.keys = None
         self.installs = 0
+        self.in_block = 8  # inbound cipher block size currently in force
+        # observations for evidence classes (never part of an oracle)
+        self.stats = {
+            "rekey-signals": 0,  # NeedRekeyException seen (legal at a packet boundary)
+            "msgs-read-with-rekey-pending": 0,
+            "timeouts": 0,
+            "timeout-inside-packet": 0,
+            "timeout-inside-first-block": 0,
+            "timeout-between-length-and-body": 0,
+            "timeout-inside-packet+rekey-pending": 0,
+            "timeout-inside-first-block+rekey-pending": 0,
+        }
 
     # -- keys
     def install(self, keys):
@@ -332,15 +458,56 @@ class PPeer:
         self.sock.feed(data)
 
     def recv(self):
-        cmd, msg = self.t.packetizer.read_message()
+        from paramiko.packet import NeedRekeyException
+
+        pz = self.t.packetizer
+        sock = self.sock
+        sock.mark()
+        pending = pz.need_rekey()
+        signals = 0
+        try:
+            while True:
+                try:
+                    cmd, msg = pz.read_message()
+                    break
+                except NeedRekeyException:
+                    # what Transport.run does: go round its loop again (it would also start a
+                    # key exchange; here the session script decides when the next one happens)
+                    signals += 1
+                    self.stats["rekey-signals"] += 1
+                    if signals > len(sock.buf) + sock.max_timeouts + 10:
+                        raise RuntimeError("read_message keeps raising NeedRekeyException without consuming input")
+        finally:
+            self._account(sock.mark(), pending)
+        if pending:
+            self.stats["msgs-read-with-rekey-pending"] += 1
         self.last_msg = msg
         return cmd, msg.asbytes()
+
+    def _account(self, offsets, pending):
+        st = self.stats
+        for off in offsets:
+            st["timeouts"] += 1
+            if off <= 0:
+                continue
+            st["timeout-inside-packet"] += 1
+            first = off < self.in_block
+            if first:
+                st["timeout-inside-first-block"] += 1
+            if off == 4:
+                st["timeout-between-length-and-body"] += 1
+            if pending:
+                st["timeout-inside-packet+rekey-pending"] += 1
+                if first:
+                    st["timeout-inside-first-block+rekey-pending"] += 1
 
     def recv_newkeys(self):
         cmd, body = self.recv()
         if cmd != MSG_NEWKEYS or body != b"":
             return cmd, body
         self.t._parse_newkeys(self.last_msg)
+        _, inn = _role_names(self.role, self.keys)
+        self.in_block = max(8, R.CIPHERS[inn[0]][2])
         return cmd, body
 
     def pending(self):
@@ -485,7 +652,8 @@ def run_session(case, c2s, s2c):
     """Play ``case["segs"]`` over the two directions.
 
     c2s / s2c = (sender_peer, [receiver_peers]); a peer object may appear as sender of one
-    direction and receiver of the other (duplex Transport).  Segment = {"op": "plain" |
+    direction and receiver of the other (duplex Transport).  A paramiko peer that is only a
+    receiver still activates its outbound keys at every rekey (its NEWKEYS goes nowhere).  Segment = {"op": "plain" |
     "rekey" | "auth", "keys": {...} (rekey only), "c2s": [msgspec...], "s2c": [msgspec...]}.
     Order inside a segment follows the protocol: (rekey) all peers get K/H and names, both
     senders emit NEWKEYS and switch; (auth) every peer is told; both senders send their
@@ -498,6 +666,8 @@ def run_session(case, c2s, s2c):
         for p in [sender] + list(receivers):
             if p is not None and not any(p is q for q in peers):
                 peers.append(p)
+    senders = [snd for snd, _ in dirs.values() if snd is not None]
+    recv_only = [p for p in peers if p.kind == "paramiko" and not any(p is q for q in senders)]
     res = SessionResult()
     keys = None
     for si, seg in enumerate(case["segs"]):
@@ -507,6 +677,15 @@ def run_session(case, c2s, s2c):
             keys = seg["keys"]
             for p in peers:
                 p.install(keys)
+            for p in recv_only:
+                # a real transport switches its outbound direction (NEWKEYS out) before it reads
+                # the peer's NEWKEYS: a receiver under test is keyed in both directions, with the
+                # (possibly different) suite negotiated for each
+                try:
+                    p.send_newkeys()
+                except Exception as e:
+                    raise SessionFailed("pp", "send-raises", "%s:newkeys-of-receiver" % exc_bucket(e), "segment %d: %r" % (si, e), si, None)
+                p.drain()
         elif op == "auth":
             for p in peers:
                 p.auth()
@@ -682,6 +861,8 @@ def strategies():
         st.integers(0, 1 << 32),
         st.sampled_from([0, 0, 1, 2, 3, 3]),
     )
+    # for checks where the size of K is irrelevant (only the cost of the KDF grows with it)
+    S.K_small = st.builds(mk_k, st.one_of(st.integers(1, 64), st.sampled_from([255, 256, 257, 511, 512]), st.integers(1, 520)), st.integers(0, 1 << 32), st.sampled_from([0, 0, 1, 2, 3, 3]))
     S.H = st.one_of(st.sampled_from([20, 32, 48, 64]), st.integers(20, 64)).flatmap(lambda n: st.binary(min_size=n, max_size=n))
     S.hash = st.sampled_from(KEX_HASHES)
     S.cipher = st.sampled_from(CIPHERS)
@@ -712,4 +893,34 @@ def strategies():
         st.lists(st.sampled_from([0, 1, 2, 3, 4, 5, 7, 8, 9, 15, 16, 17, 31, 33, 100, 1000, 4096, 32768]), min_size=1, max_size=8),
         st.lists(st.integers(1, 40), min_size=1, max_size=6),
     )
+
+    # -- direction asymmetry: suites of a given authentication style, ordered pairs of styles
+    classic_macs = [m for m in MACS if not m.endswith("-etm@openssh.com")]
+    etm_macs = [m for m in MACS if m.endswith("-etm@openssh.com")]
+    block_ciphers = [c for c in CIPHERS if R.CIPHERS[c][0] != "gcm"]
+    gcm_ciphers = [c for c in CIPHERS if R.CIPHERS[c][0] == "gcm"]
+
+    def cipher_mac_of_style(style):
+        if style == "classic":
+            return st.tuples(st.sampled_from(block_ciphers), st.sampled_from(classic_macs))
+        if style == "etm":
+            return st.tuples(st.sampled_from(block_ciphers), st.sampled_from(etm_macs))
+        if style == "aead":
+            return st.tuples(st.sampled_from(gcm_ciphers), S.mac)
+        raise HarnessBug("bad style %r" % (style,))
+
+    S.cipher_mac_of_style = cipher_mac_of_style
+
+    def suite_of_style(style, comp=None):
+        return st.tuples(cipher_mac_of_style(style), comp if comp is not None else S.comp).map(lambda t: [t[0][0], t[0][1], t[1]])
+
+    S.suite_of_style = suite_of_style
+    S.style = st.sampled_from(STYLES)
+
+    # -- scripted socket behaviour: timeouts between fragments (sign = socket.timeout / EAGAIN)
+    gap = st.builds(lambda g, neg: -g if neg else g, st.integers(1, 6), st.booleans())
+    S.timeouts = st.one_of(st.just([]), st.just([]), st.just([1]), st.just([-1]), st.just([1, -1]), st.lists(gap, min_size=1, max_size=6))
+    # -- re-key thresholds of the peer under test (None = paramiko's 2**29)
+    S.rekey_packets = st.one_of(st.none(), st.none(), st.integers(1, 6))
+    S.rekey_bytes = st.one_of(st.none(), st.none(), st.none(), st.integers(1, 4000))
     return S
